@@ -491,6 +491,12 @@ func lexText(l *lexer) stateFn {
 			case '*':
 				maybeEmitText(l, 2)
 				if l.next() == '*' {
+					if l.peek() == '/' {
+						// "/**/" is an empty block comment, not the start of a soydoc.
+						l.next()
+						l.emit(itemComment)
+						return lexText
+					}
 					return lexSoyDoc(l)
 				}
 				l.backup()
